@@ -54,24 +54,86 @@ def wrapper_module(base, consts, name="MCrun"):
     return "\n".join(lines) + "\n", plain, over
 
 
+def drop_prefixes(behs):
+    """Drop behaviours whose step list is a proper prefix of another one (their transitions come for free)."""
+    keyed = [(tuple(json.dumps(x, sort_keys=True) for x in h), h) for h in behs]
+    keyed.sort(key=lambda kh: -len(kh[0]))
+    seen, out = set(), []
+    for k, h in keyed:
+        if k in seen:
+            continue
+        out.append(h)
+        for i in range(1, len(k) + 1):
+            seen.add(k[:i])
+    return out
+
+
+def sig_of(h):
+    """Structural signature of a behaviour: the model-computed `sig` of every step (falls back to the action)."""
+    return tuple((x.get("sig") or json.dumps({k: v for k, v in x.items() if k in ("a", "rg", "amt", "n")}, sort_keys=True))
+                 if isinstance(x, dict) else str(x) for x in h[1:])
+
+
+def grams(h, k):
+    s = ("^",) + sig_of(h)
+    return {s[i:i + k] for i in range(len(s) - k + 1)}
+
+
 def select(behs, n, rnd):
-    """Seeded sample of the emitted behaviours, preferring long ones (prefixes come for free)."""
-    if len(behs) <= n:
+    """Seeded choice of behaviours to replay, directed by the structural signatures the model computes for
+    every step (mode, request present, usage present, money short, kind of grant, direction of account and
+    reservation change, records added ...): a lazy greedy cover of the signature 2-grams (pairs of consecutive
+    step signatures), then of the 3-grams, then one behaviour per still unseen signature sequence.
+    n = None: every candidate (minus those that are prefixes of others)."""
+    import heapq
+    behs = drop_prefixes(behs)
+    if n is None or len(behs) <= n:
         return behs
-    behs = sorted(behs, key=lambda h: -len(h))
-    head = behs[: n * 3]
-    rnd.shuffle(head)
-    pick = head[: n * 3 // 4]
-    rest = behs[len(head):]
-    rnd.shuffle(rest)
-    pick += rest[: n - len(pick)]
-    if len(pick) < n:
-        pick += head[n * 3 // 4: n * 3 // 4 + (n - len(pick))]
+    rnd.shuffle(behs)
+    pick, taken = [], set()
+    for k in (2, 3):
+        gs = [grams(h, k) for h in behs]
+        cov = set()
+        heap = [(-len(g), i) for i, g in enumerate(gs) if i not in taken]
+        heapq.heapify(heap)
+        while heap and len(pick) < n:
+            neg, i = heapq.heappop(heap)
+            gain = len(gs[i] - cov)
+            if gain == 0:
+                continue
+            if heap and gain < -heap[0][0]:
+                heapq.heappush(heap, (-gain, i))      # stale score: re-queue with the current gain
+                continue
+            cov |= gs[i]
+            taken.add(i)
+            pick.append(behs[i])
+    seen = {sig_of(h) for h in pick}
+    for i, h in enumerate(behs):
+        if len(pick) >= n:
+            break
+        if i not in taken and sig_of(h) not in seen:
+            seen.add(sig_of(h))
+            taken.add(i)
+            pick.append(h)
+    for i, h in enumerate(behs):
+        if len(pick) >= n:
+            break
+        if i not in taken:
+            pick.append(h)
     return pick
 
 
+def gram_cover(universe, picked, k):
+    u, p = set(), set()
+    for h in universe:
+        u |= grams(h, k)
+    for h in picked:
+        p |= grams(h, k)
+    return len(p & u), len(u)
+
+
 def explore(sc, base_module, consts, invariants, tier, view="View", emit="EmitBehaviour", notes=None, workers=None,
-            properties=()):
+            properties=(), tag="VF-BEH"):
     """Model-check base_module with TLC; return (stats, emitted behaviours, counterexample behaviours)."""
     mod, plain, over = wrapper_module(base_module, consts)
     workers = workers or min(8, core.NCPU)
@@ -91,8 +153,8 @@ def explore(sc, base_module, consts, invariants, tier, view="View", emit="EmitBe
         ct = core.cfg_text("Spec", plain, over, invariants=[], view=view, action_constraints=[emit] if emit else [])
         mc = core.tlc(sc, "MCrun", ct, extra_modules={"MCrun.tla": mod}, workers=workers, seed_=core.seed(), timeout=to)
         mc["violated"] = bad
-    hists = list(core.tagged_lines(mc["outfile"], "VF-BEH")) if emit else []
-    core.log("model explored: %d states, %d behaviours emitted, %.1fs" % (mc["distinct"], len(hists), mc["wall"]))
+    hists = list(core.tagged_lines(mc["outfile"], tag)) if emit else []
+    core.log("model explored: %d states, %d %s lines, %.1fs" % (mc["distinct"], len(hists), tag, mc["wall"]))
     return mc, hists, cex
 
 
@@ -143,8 +205,9 @@ def judge(sc, module, consts, trace_path, nlines, heap="12g", timeout=3600):
     return res
 
 
-def judge_parallel(sc, module, consts, trace_path, nlines, parts=8, heap="6g", timeout=3600):
-    """Judge a trace whose lines are independent of each other with several TLC processes at once."""
+def judge_parallel(sc, module, consts, trace_path, nlines, parts=8, heap="6g", timeout=3600, boundary=None):
+    """Judge a trace whose lines (or, with `boundary`, whose groups of lines starting at a line that contains
+    `boundary`) are independent of each other with several TLC processes at once."""
     import concurrent.futures
     if nlines < 400:
         return judge(sc, module, consts, trace_path, nlines, heap=heap, timeout=timeout)
@@ -152,12 +215,18 @@ def judge_parallel(sc, module, consts, trace_path, nlines, parts=8, heap="6g", t
     with open(trace_path) as f:
         lines = f.readlines()
     per = (len(lines) + parts - 1) // parts
+    cuts = [0]
+    while cuts[-1] < len(lines):
+        j = min(cuts[-1] + per, len(lines))
+        while boundary and j < len(lines) and boundary not in lines[j]:
+            j += 1
+        cuts.append(j)
     chunks = []
-    for i in range(0, len(lines), per):
-        cp = trace_path + ".part%d" % (i // per)
+    for k in range(len(cuts) - 1):
+        cp = trace_path + ".part%d" % k
         with open(cp, "w") as f:
-            f.writelines(lines[i:i + per])
-        chunks.append((cp, len(lines[i:i + per])))
+            f.writelines(lines[cuts[k]:cuts[k + 1]])
+        chunks.append((cp, cuts[k + 1] - cuts[k]))
     # allocate the scratch TLC directories up front (Scratch is not thread-safe)
     with concurrent.futures.ThreadPoolExecutor(max_workers=len(chunks)) as ex:
         futs = [ex.submit(judge, sc, module, consts, cp, n, heap, timeout) for cp, n in chunks]
@@ -202,25 +271,63 @@ class Builder:
 
 def standard_check(pid, tier, *, family, base_module, consts, invariants, n_beh, to_behaviour, harness_mode,
                    trace_module, trace_consts, clauses, extra=(), replay=None, level="model_checking",
-                   assumptions=(), chunk=40, explanation="", extra_phase=None):
+                   assumptions=(), chunk=40, explanation="", extra_phase=None, slices=None, judge_boundary=None,
+                   slice_behaviour=None):
     """The common shape of a model-based check; returns the process exit code."""
     v = core.Verdict(pid, tier)
     sc = core.Scratch(pid)
     rnd = random.Random(core.seed())
     builder = Builder(sc)
     mc = dict(generated=0, distinct=0, violated=None)
+    slice_cov = []
     if replay is None:
-        mc, hists, cex = explore(sc, base_module, consts, invariants, tier, notes=v.notes)
-        hists = select(hists, n_beh, rnd)
-        behs = [to_behaviour(h, "%s-cex%d" % (pid, i)) for i, h in enumerate(cex)]
-        behs += [to_behaviour(h, "%s-%d" % (pid, i)) for i, h in enumerate(hists)]
+        # one or more bounded configurations ("slices") of the same model, explored side by side
+        sl = slices or [dict(name="main", consts=consts, n_beh=n_beh)]
+        import concurrent.futures
+        w = max(2, min(8, core.NCPU // len(sl)))
+        with concurrent.futures.ThreadPoolExecutor(max_workers=len(sl)) as ex:
+            futs = [ex.submit(explore, sc, base_module, x["consts"], invariants, tier, notes=v.notes, workers=w,
+                              emit="EmitEdge" if x.get("graph") else "EmitBehaviour",
+                              tag="VF-EDGE" if x.get("graph") else "VF-BEH") for x in sl]
+            outs = [f.result() for f in futs]
+        behs = []
+        mc = dict(generated=0, distinct=0, violated=None)
+        for k, (x, (m1, hists, cex)) in enumerate(zip(sl, outs)):
+            emitted = len(hists)
+            sc_cov = {}
+            if x.get("graph"):
+                from . import graph
+                g = graph.Graph(hists)
+                if x.get("n_beh") is None:
+                    paths, sc_cov = graph.all_edges(g), dict(selection="every transition: breadth-first path + transition")
+                else:
+                    paths, sc_cov = graph.cover(g, x["n_beh"], rnd)
+                    sc_cov["selection"] = "signature-pair cover of the state graph, then triples, then random walks"
+                sc_cov["transitions_replayed"] = graph.edge_stats(g, paths)
+                hists = [g.hist(i, p) for i, p in paths]
+            else:
+                hists = select(hists, x.get("n_beh"), rnd)
+            tb = (lambda h, bid, x=x: slice_behaviour(x, h, bid)) if slice_behaviour else to_behaviour
+            behs += [tb(h, "%s-%s-cex%d" % (pid, x["name"], i)) for i, h in enumerate(cex)]
+            behs += [tb(h, "%s-%s-%d" % (pid, x["name"], i)) for i, h in enumerate(hists)]
+            mc["generated"] += m1["generated"]
+            mc["distinct"] += m1["distinct"]
+            mc["violated"] = mc["violated"] or m1.get("violated")
+            slice_cov.append(dict(sc_cov, name=x["name"], states=m1["distinct"], transitions=m1["generated"],
+                                  emitted=emitted, replayed=len(hists),
+                                  constants={a: str(b) for a, b in x["consts"].items()}))
+            core.log("slice %s: %d states, %d behaviours to replay %s" % (x["name"], m1["distinct"], len(hists),
+                     {k2: v2 for k2, v2 in sc_cov.items() if k2 != "selection"}))
         behs += list(extra)
     else:
         with open(replay) as f:
             behs = [json.load(f)["behaviour"]]
     vfh = builder.get()
     trace, nlines = run_harness(sc, vfh, harness_mode, behs, chunk=chunk)
-    res = judge(sc, trace_module, trace_consts, trace, nlines)
+    if judge_boundary:
+        res = judge_parallel(sc, trace_module, trace_consts, trace, nlines, boundary=judge_boundary)
+    else:
+        res = judge(sc, trace_module, trace_consts, trace, nlines)
     bymap = {b["id"]: b for b in behs}
     mine = [x for x in res["viol"] if clauses is None or (x["prop"], x["clause"]) in clauses]
     for x in sorted(mine, key=lambda x: (str(x["trace"]), x["step"])):
@@ -241,7 +348,8 @@ def standard_check(pid, tier, *, family, base_module, consts, invariants, n_beh,
             "TLC explored the bounded %s model exhaustively (constants in 'constants'); a seeded sample of the "
             "explored transitions (behaviour = shortest path to the source state + the transition) was executed on "
             "the real code and every recorded step judged by %s" % (base_module, trace_module)),
-        constants={k: str(x) for k, x in consts.items()},
+        constants={k: str(x) for k, x in consts.items()} if not slices else "per slice",
+        slices=slice_cov,
         samples=[behs[i] for i in range(min(2, len(behs)))],
     )
     return v.finish(level, cov, list(assumptions))
